@@ -143,6 +143,9 @@ func c30(c *core.Ctx) {
 	c.Explain = "Static necessary conditions for consistent expiry semantics: each 'is expired' decision (treasure.IsExpired and the three claim sites of the expiry index), evaluated exhaustively over the abstract order cases of (expiry vs 0, expiry vs now), is true exactly for a non-zero expiry strictly before now (pre-epoch included); SetExpirationTime maps the zero time to 0; every insertion into the expiry index is guarded by expiry != 0; every 'has an expiry' test in core and gateway compares with != 0 / == 0 (never > 0); expiry travels in nanoseconds to time.Unix(0, x)."
 	c.NotCovered = []string{"value-level agreement on concrete histories", "clock skew between calls of time.Now", "filter semantics on the expiry field"}
 
+	rLI := c.Rule("C30.lazyinit", "the expiry index (like every lazily built index) is never marked initialized by a side effect before it was built: each initializing beacon call on an index field follows buildBeacon of that field or is guarded by IsInitialized() on it (shared with C07.lazyinit) - otherwise index-based expiry reads and claims miss the records that existed before", 20)
+	lazyInitRule(c, rLI)
+
 	rP := c.Rule("C30.predicate", "an 'is expired' decision is true exactly when expiry != 0 and expiry < now (5 abstract order cases per site, pre-epoch included)", 20)
 	// (a) treasure.IsExpired: simulate the function
 	{
